@@ -133,6 +133,7 @@ def singles(base: dict, numbers=None):
     def no_rules(r):
         r["blocks"][-1]["rules"] = []
     out.append(("block", "last block without rules", no_rules))
+    out.append(("block", "no rule blocks at all", _set(("blocks",), [])))
     for text in ("some text", "with: a colon and, punctuation", "x", "form\x0cfeed, vertical\x0btab, line\u2028separator"):
         out.append(("description", f"engine.description={text!r}", _set(("description",), text)))
         out.append(("description", f"in0.description={text!r}", _set(("inputs", 0, "description"), text)))
